@@ -7,14 +7,17 @@ package codegen
 // "The example command never modifies a file that already exists": every file an example generator hands to
 // the renderer is marked SkipExist (File.Render leaves such a file alone when it exists: proved in package codegen).
 //@ func exampleCLI
+//@   params genpkg root svr
 //@   opt inline none
 //@   property C09
 //@   ensures* user.owned.file: result != nil ==> result.SkipExist
 //@ func exampleServer
+//@   params genpkg root svr
 //@   opt inline none
 //@   property C09
 //@   ensures* user.owned.file: result != nil ==> result.SkipExist
 //@ func dummyMultipartFile
+//@   params genpkg root svc
 //@   opt inline none
 //@   property C09
 //@   ensures* user.owned.file: result != nil ==> result.SkipExist
